@@ -27,7 +27,8 @@ RULE = ("mode cases: every valid local mode of <=4 flags (thorough: all 2304 val
         "string of <=2 characters over the flag alphabet + 2 foreign characters and seeded longer strings as "
         "(mostly invalid) modes. cwd cases: seeded config trees (nested files in 7 directories + 5 symbolic links to "
         "directories at other depths, relative/absolute/detour spellings, a quarter of them through a link, some with "
-        "'..' after a link, list files loadable and not loadable as YAML, missing/malformed files and broken values as failure "
+        "'..' after a link, ~30% of the config and list files referred to through a symbolic link to the file lying in "
+        "another directory, list files loadable and not loadable as YAML, missing/malformed files and broken values as failure "
         "points) through parse_args(--cfg), parse_path, default_config_files, get_defaults, --mid <file>, --mid=<file>. Distinct = distinct (flag set, c-count, probed fact "
         "record, outcome) resp. distinct (entry point, tree, outcome); non-trivial = at least one flag resp. at "
         "least one nested file or path value.")
@@ -45,7 +46,9 @@ ASSUMPTIONS = [
     "the fact record of a path is what os.stat/os.access answer at the time of the call (no concurrent change)",
     "the parent of a path is the physical parent dirname(realpath(path))",
     "config-tree fixtures contain symbolic links to DIRECTORIES only (relative/absolute targets, a link reached through a "
-    "link; the table link -> realpath is measured by the runner); config/list/data files themselves are not symlinks; every "
+    "link) and to config / list FILES lying in another directory than the link (relative, absolute and through-a-directory-"
+    "link targets, dangling when the file is missing; same-named data files next to the target are decoys); the table "
+    "link -> realpath is measured by the runner; data files (path values) themselves are not symlinks; every "
     "directory component named before a '..' exists (the kernel would answer ENOENT otherwise, the model pops)",
     "os.chdir(d) fails exactly when d is not one of the fixture's physical directories (all are accessible to the "
     "observing user); no handler of jsonargparse catches the resulting OSError",
@@ -201,9 +204,26 @@ def gen_cwd_case(rng, tier):
     pfail = rng.choice([0.0, 0.0, 0.05, 0.15])
     counter = [0]
 
+    file_links = []
+
     def fresh(d, stem, ext):
         counter[0] += 1
         return "%s/%s%d.%s" % (d, stem, counter[0], ext)
+
+    def place(d, stem, ext):
+        """a new file in directory d -> (physical path, path it is referred by, directory of that path). Sometimes the
+        file is referred to through a symbolic link TO THE FILE lying in another directory: what is written in it is
+        then relative to the link's directory (same-named data files next to the target are the decoys)."""
+        at = fresh(d, stem, ext)
+        if rng.random() < 0.3:
+            ld = rng.choice([x for x in DIRS if x != d])
+            ref = fresh(ld, stem + "L", ext)
+            how = rng.random()
+            target = ("/B/" + at if how < 0.3 else
+                      os.path.relpath("/B/" + (alias(rng, at, 0.5) if how < 0.6 else at), "/B/" + ld))
+            file_links.append([ref, target])
+            return at, ref, ld
+        return at, at, d
 
     def path_node(key, here):
         if rng.random() < pfail:
@@ -224,14 +244,17 @@ def gen_cwd_case(rng, tier):
             # C19_relative_follows_config), the rest relatively (finding class list-file-relative)
             not_yaml = rng.random() < 0.3
             d = rng.choice(at_dirs) if not_yaml else (here if rng.random() < 0.3 else rng.choice(DIRS))
-            at = fresh(d, "list", "txt")
+            if not_yaml:
+                at = ref = fresh(d, "list", "txt")
+            else:
+                at, ref, d = place(d, "list", "txt")
             items = [path_node(key, d) for _ in range(n + 1)]
             items = [i["given"] for i in items if i["t"] == "path"]
             items = (items + ["missing.txt", "missing2.txt"])[:max(2, len(items))]
             if not_yaml:
                 items = ["@at.txt"] + items[:2]
             missing = rng.random() < pfail
-            given = "/B/" + at if rng.random() < 0.4 else rel_spelling(rng, at, here)
+            given = "/B/" + ref if rng.random() < 0.4 else rel_spelling(rng, ref, here)
             return {"t": "listfile", "key": key, "given": given, "at": None if missing else at, "items": items}
         items = [path_node(key, here) for _ in range(n)]
         return {"t": "inlist", "key": key, "items": [i["given"] for i in items if i["t"] == "path"] or ["missing.txt"]}
@@ -247,9 +270,8 @@ def gen_cwd_case(rng, tier):
 
     def nested(key, here, make_body):
         if rng.random() < 0.7:
-            d = rng.choice(DIRS)
-            at = fresh(d, key, rng.choice(["yaml", "json"]))
-            node = {"t": "load", "key": key, "given": rel_spelling(rng, at, here), "at": at, "body": make_body(d),
+            at, ref, d = place(rng.choice(DIRS), key, rng.choice(["yaml", "json"]))
+            node = {"t": "load", "key": key, "given": rel_spelling(rng, ref, here), "at": at, "body": make_body(d),
                     "wellformed": rng.random() >= pfail / 2}
             if rng.random() < pfail:
                 node["at"] = None
@@ -278,14 +300,13 @@ def gen_cwd_case(rng, tier):
 
     entry = rng.choice(["args", "args", "path", "default", "defaults_only", "argmid", "argmid_eq"])
     start = rng.choice(DIRS)
-    topdir = rng.choice(DIRS)
-    at = fresh(topdir, "top", "yaml")
+    at, ref, topdir = place(rng.choice(DIRS), "top", "yaml")
     tree = mid_body(topdir) if entry.startswith("argmid") else top_body(topdir)
-    top = {"given": rel_spelling(rng, at, start), "at": at, "wellformed": True}
+    top = {"given": rel_spelling(rng, ref, start), "at": at, "wellformed": True}
     if entry not in ("default", "defaults_only") and rng.random() < pfail / 2:
         top["at"] = None
     return {"k": "cwd", "entry": entry, "start": start, "dirs": DIRS, "files": files + [d + "/@at.txt" for d in at_dirs],
-            "links": LINKS, "top": top, "tree": tree}
+            "links": LINKS, "file_links": file_links, "top": top, "tree": tree}
 
 
 def generate(rng, tier):
@@ -436,6 +457,7 @@ def describe(case, obs):
         return {"call": "%s  # cwd=%s uid=%s kind=%s" % (call, obs["cwd"], case["uid"], case["kind"]),
                 "probed_facts": obs["facts"], "observed": obs["obs"]}
     return {"entry": case["entry"], "process_cwd": "/B/" + case["start"], "top": case["top"], "tree": case["tree"],
+            "symlinks_to_files": case.get("file_links", []),
             "observed": {k: v for k, v in obs.items() if k not in ("files", "dirs")}}
 
 
@@ -461,6 +483,24 @@ def shrink(case):
 
     for t in variants(case["tree"]):
         yield dict(case, tree=t)
+
+
+def search(rng, tier, broken):
+    """failing-input search after a broken proof/tie: ONE fresh quick-sized batch (bounded, ~60 s), judged by the same judge"""
+    import sys
+
+    from tie import framework
+
+    mod = sys.modules[__name__]
+    cases = generate(rng, "quick")
+    obs = observe(cases)
+    bm, bi, bo = framework.judge_cases(mod, cases, obs, tag="x")
+    known = framework.load_known_findings(PROP)
+    bad = sorted(set(bi) | {i for i, k in bo if FINDING_CLASSES.get(k) not in known})
+    if not bad:
+        return None
+    i = bad[0]
+    return {"case": cases[i], "observed": obs[i], "explain": describe(cases[i], obs[i])}
 
 
 def extra_coverage(tier):
@@ -505,7 +545,7 @@ META = {
                   "written; mode tables are translated), os.path.join/expanduser/normpath/dirname and the kernel's symlink "
                   "resolution as re-implemented in Gallina, and the classification of a probed path into the 8-field fact record. Trusted: Coq kernel/VM; "
                   "the fixture, probe and Gallina printer; os.stat/os.access/os.chdir. Outside the statement: URL/fsspec "
-                  "modes (u, s), '~user', file:// prefixes, config files that are themselves symbolic links, concurrent chdir by other "
+                  "modes (u, s), '~user', file:// prefixes, path VALUES that are themselves symbolic links, concurrent chdir by other "
                   "threads, single-line list files. No axioms.",
     "technique": "Rocq: kernel-evaluated finite product (forallb ... = true by vm_compute, lifted with forallb_forall to all "
                  "mode strings and all combinations of repairs) + structural (nested) induction over config trees with a "
